@@ -190,6 +190,10 @@ class Failure:
         self.text = text
         self.line = line
         self.size = size if size is not None else len(json.dumps(case, default=repr))
+        # a disagreement between model and implementation about something the property does not itself prescribe
+        # (an encoding, an internal trace, a candidate set beyond the required superset ...): the correspondence no
+        # longer checks, which by itself is not an input on which the property fails
+        self.weak = False
 
 
 class Outcome:
@@ -225,7 +229,8 @@ def write_replay(pid, failure, seed, extra=None):
     os.makedirs(os.path.join(VERIF, 'replays'), exist_ok=True)
     body = {
         'property': pid,
-        'kind': 'unproved' if failure.kind == 'unproved' else 'failing-input',
+        'kind': 'unproved' if failure.kind == 'unproved' else
+                ('correspondence-broken' if getattr(failure, 'weak', False) else 'failing-input'),
         'detected_by': failure.kind,
         'seed': seed,
         'case': failure.case,
